@@ -1,0 +1,62 @@
+//go:build verif
+
+package goat
+
+import (
+	"context"
+	"sync"
+	"time"
+
+	"github.com/avos-io/goat/internal/client"
+	"github.com/avos-io/goat/internal/verifhook"
+)
+
+// This file exists only with the "verif" build tag. It re-exports internals
+// that the external verification harness (a separate module, which cannot
+// import goat/internal/...) needs to observe.
+
+var verifHandlers struct {
+	sync.Mutex
+	all []*handler
+}
+
+func verifNewHandler(h *handler) {
+	verifHandlers.Lock()
+	verifHandlers.all = append(verifHandlers.all, h)
+	verifHandlers.Unlock()
+}
+
+// VerifResetHandlers forgets all server connection handlers recorded so far.
+func VerifResetHandlers() {
+	verifHandlers.Lock()
+	verifHandlers.all = nil
+	verifHandlers.Unlock()
+}
+
+// VerifServerStreams returns the total number of registered streams over all
+// server connection handlers created since the last VerifResetHandlers.
+func VerifServerStreams() int {
+	verifHandlers.Lock()
+	hs := append([]*handler{}, verifHandlers.all...)
+	verifHandlers.Unlock()
+	n := 0
+	for _, h := range hs {
+		h.mu.Lock()
+		n += len(h.streams)
+		h.mu.Unlock()
+	}
+	return n
+}
+
+// VerifClientCalls returns the number of calls registered in the client
+// connection's multiplexer.
+func VerifClientCalls(cc *ClientConn) int { return client.VerifRegistered(cc.mp) }
+
+// VerifSetHook installs the callback invoked at every verifhook.Point.
+func VerifSetHook(f func(ctx context.Context, name string)) { verifhook.Set(f) }
+
+// VerifCounter returns the value of a verifhook counter.
+func VerifCounter(name string) int64 { return verifhook.Counter(name) }
+
+// VerifParseGrpcTimeout exposes the timeout header parser.
+func VerifParseGrpcTimeout(s string) (time.Duration, bool) { return parseGrpcTimeout(s) }
